@@ -22,7 +22,7 @@
     equation is FALSE on C04's model as it stands; fields / values / variables need, in addition to
     [type_info_erase], that every slot of the annotated document holds only visible types). *)
 From Coq Require Import List NArith Bool String Lia.
-From ApiFu Require Import Base.Sexp Vld.Ast Vld.AstInd Vld.Inspect Vld.TypeInfoModel Vld.ValidatorModel Vld.ProofsCommon Vld.InspectProofs.
+From ApiFu Require Import Base.Sexp Vld.Ast Vld.AstInd Vld.Inspect Vld.TypeInfoModel Vld.ValidatorModel Vld.ProofsCommon Vld.InspectProofs Vld.Witness.
 Import ListNotations.
 Open Scope list_scope.
 
@@ -94,7 +94,12 @@ Definition vok (S : schema) : bool :=
   vroot_ok S (Some (s_query S)) && vroot_ok S (s_mutation S) && vroot_ok S (s_subscription S) &&
   forallb (fun d => forallb (fun a => ref_ok S [] (in_type (snd a))) (dd_args (snd d))) (s_directives S) &&
   forallb (fun nf => ref_ok S [] (f_type (snd nf)) &&
-                     forallb (fun a => ref_ok S [] (in_type (snd a))) (f_args (snd nf))) (s_meta S).
+                     forallb (fun a => ref_ok S [] (in_type (snd a))) (f_args (snd nf))) (s_meta S) &&
+  (* the built-in String (the type of __typename), when registered, requires nothing *)
+  match req_of S n_String with Some [] | None => true | _ => false end &&
+  (* Schema.InterfaceImplementations: one entry per interface, listing registered types *)
+  vnodup (map fst (s_impls S)) &&
+  forallb (fun il => forallb (fun o => match raw_type S o with Some _ => true | None => false end) (snd il)) (s_impls S).
 
 (** ** lists *)
 Lemma subset_spec a b : subset a b = true <-> (forall x, In x a -> In x b).
@@ -177,10 +182,23 @@ Section Erase.
     forallb (fun nf => ref_ok S [] (f_type (snd nf)) &&
                        forallb (fun a => ref_ok S [] (in_type (snd a))) (f_args (snd nf))) (s_meta S) = true.
   Proof.
-    pose proof Hok as H. unfold vok in H.
-    apply andb_true_iff in H as [H H7]. apply andb_true_iff in H as [H H6]. apply andb_true_iff in H as [H H5].
+    pose proof Hok as H. unfold vok in H. apply andb_true_iff in H as [H _]. apply andb_true_iff in H as [H _].
+    apply andb_true_iff in H as [H _]. apply andb_true_iff in H as [H H7]. apply andb_true_iff in H as [H H6]. apply andb_true_iff in H as [H H5].
     apply andb_true_iff in H as [H H4]. apply andb_true_iff in H as [H H3].
     apply andb_true_iff in H as [H1 H2]. auto 10.
+  Qed.
+
+  Lemma string_rule : match req_of S n_String with Some [] | None => true | _ => false end = true.
+  Proof.
+    pose proof Hok as H. unfold vok in H. apply andb_true_iff in H as [H _]. apply andb_true_iff in H as [H _].
+    apply andb_true_iff in H as [_ H]. exact H.
+  Qed.
+
+  Lemma impls_rule :
+    vnodup (map fst (s_impls S)) = true /\
+    forallb (fun il => forallb (fun o => match raw_type S o with Some _ => true | None => false end) (snd il)) (s_impls S) = true.
+  Proof.
+    pose proof Hok as H. unfold vok in H. apply andb_true_iff in H as [H H2]. apply andb_true_iff in H as [_ H1]. auto.
   Qed.
 
   Lemma raw_type_erase n :
@@ -608,18 +626,15 @@ Section Erase.
   Qed.
 End Erase.
 
-(** ** what does not close on C04's model as it stands
+(** ** the witness of defect #30 (validator half) in C04's encoding
 
-    [possible_types] (C04's getPossibleTypes) answers [s_impls S] for an interface without the
-    feature filter `obj.RequiredFeatures.IsSubsetOf(features)` of the repaired code (DESIGN §6 #30,
-    validator half; C04's harness registers [Schema.InterfaceImplementations] unfiltered and its
-    schemas have no gated implementation, so its own check cannot notice).  On the C13 witness —
-    interfaces I and J whose only common implementation G requires feature fa — C04's
-    [validate_model] therefore accepts  { i { ... on J { y } } }  for a request WITHOUT fa, while on
-    the erased schema it reports the impossible spread: the equation is false for the rule group
-    fragment spreads.  Needed in Vld/ValidatorModel.v (not mine to edit): filter the
-    implementations by [t_req ⊆ F] in [possible_types]; with that change the rule closes by the
-    argument of [FeaturesProofs.ask_erase] (QPossibleV). *)
+    Before C04's model filtered implementations by the request's features ([q_impl_features] off =
+    the pinned getPossibleTypes), [validate_model] accepted  { i { ... on J { y } } }  on the C13
+    witness — interfaces I and J whose only common implementation G requires feature fa — for a
+    request WITHOUT fa, while it reports the impossible spread on the erased schema: the equation
+    [validate_eq] is false for the pinned behaviour ([spreads_refuted_before_fix]).  With the filter
+    ([repaired]) both sides report it ([spreads_after_fix]); the general statement is
+    [FeaturesVldRules.validate_eq_repaired]. *)
 Open Scope string_scope.
 Definition vn (s : string) : name := bs s.
 Definition vfd (t : string) : field_def := {| f_type := StNamed (vn t); f_args := []; f_req := [] |}.
@@ -651,10 +666,17 @@ Definition VD : document :=
                       (vp 1 5))) ]
          (vp 1 1)) ].
 
-Lemma spreads_refuted :
-  vok VW = true /\ subset [] [vfa] = true /\
-  validate_model repaired id_order VW [] VD = Done [] /\
-  validate_model repaired id_order (verase VW []) [vfa] VD
+Lemma spreads_refuted_before_fix :
+  vok VW = true /\ subset [] [vfa] = true /\ q_impl_features Witness.before_fix_30 = false /\
+  validate_model Witness.before_fix_30 id_order VW [] VD = Done [] /\
+  validate_model Witness.before_fix_30 id_order (verase VW []) [vfa] VD
   = Done [ {| e_locs := [vp 1 14]; e_sec := false; e_kind := ESpreadImpossible |} ] /\
   type_info true VW [] VD = type_info true (verase VW []) [vfa] VD.
+Proof. vm_compute. repeat split; reflexivity. Qed.
+
+Lemma spreads_after_fix :
+  validate_model repaired id_order VW [] VD
+  = Done [ {| e_locs := [vp 1 14]; e_sec := false; e_kind := ESpreadImpossible |} ] /\
+  validate_model repaired id_order (verase VW []) [vfa] VD = validate_model repaired id_order VW [] VD /\
+  validate_model repaired id_order VW [vfa] VD = Done [].
 Proof. vm_compute. repeat split; reflexivity. Qed.
